@@ -15,7 +15,7 @@ from engines import storage as S
 from engines import recplay as R
 
 PROP = 'C15'
-PREFIXES = ['', 'a', 'ab', 'a/b', 'b', 'full_runs', 'metadata_v2', 'a/full_runs']
+PREFIXES = ['', 'a', 'ab', 'a/b', 'b', 'full_runs', 'metadata_v2', 'a/full_runs', 'a/', 'a/b/']
 FOREIGN = ['tape_recorder_recordings/fullx/full/OpA/20200101/9', 'tape_recorder_recordings/metadata-old/metadata/OpA/20200101/9',
            'tape_recorder_recordings/a/fullness/x', 'other/x', 'tape_recorder_recordingsX/full/OpA/20200101/1', 'tape_recorder_recordings/a_foreign', 'tape_recorder_recordings/abc/full/OpA/20200101/1',
            'tape_recorder_recordings', 'zzz']
@@ -35,7 +35,7 @@ META = {
     'components_real': ['S3TapeCassette (create, save, get, list, close, context manager)', 'S3BasicFacade'],
     'components_stub': ['boto3 / S3 bucket (in-memory, mutation log, crash points, lazy paging)', 'uuid / clock'],
     'budgets': {'quick': {'seconds': 30}, 'thorough': {'seconds': 480}},
-    'required_probes': {'thorough': ['read_only_cassette_called', 'transient_closed', 'crash_between_the_two_puts', 'put_failed', 'reader_saw_intermediate_state',
+    'required_probes': {'thorough': ['infrequent_access_threshold', 'prefix_with_trailing_slash', 'read_only_cassette_called', 'transient_closed', 'crash_between_the_two_puts', 'put_failed', 'reader_saw_intermediate_state',
                                      'shared_bucket_prefix_of_prefix', 'context_manager_exit']},
 }
 
@@ -102,9 +102,15 @@ def _run(tape, clock):
     ncas = 2 + tape.draw(4)
     cass = []
     for n in range(ncas):
-        cfg = {'prefix': tape.choice(PREFIXES), 'read_only': tape.draw(3) == 2, 'transient': tape.draw(3) == 2, 'name': 'c%d' % n}
+        cfg = {'prefix': tape.choice(PREFIXES), 'read_only': tape.draw(3) == 2, 'transient': tape.draw(3) == 2, 'name': 'c%d' % n,
+               'ia': tape.choice([None, None, 0.001, 0.4])}        # storage class threshold in KB: objects above it go to STANDARD_IA
+        if cfg['ia'] is not None:
+            run.probe('infrequent_access_threshold')
+        if cfg['prefix'].endswith('/'):
+            run.probe('prefix_with_trailing_slash')
         world.owner = cfg['name']
-        cfg['obj'] = S3TapeCassette('bkt', key_prefix=cfg['prefix'], read_only=cfg['read_only'], transient=cfg['transient'])
+        cfg['obj'] = S3TapeCassette('bkt', key_prefix=cfg['prefix'], read_only=cfg['read_only'], transient=cfg['transient'],
+                                    infrequent_access_kb_threshold=cfg['ia'])
         world.owner = None
         cfg['closed'] = False
         cass.append(cfg)
